@@ -40,11 +40,36 @@ theorem C40_ids (adv : Nat) (rev : Bool) (evs : List Ev) :
 
 /-- a SYN_STREAM with an even id or an id below the highest seen is a connection error (GOAWAY PROTOCOL_ERROR),
     and creates nothing. -/
-theorem C40_bad_id_rejected (s : State) (id : Nat) (fin : Bool) (h0 : id ≠ 0) (hb : id % 2 ≠ 1 ∨ id < s.maxId) :
-    (step s (.syn id fin)).out = [.goaway s.maxId 1] ∧ (step s (.syn id fin)).st.opened = s.opened := by
+theorem C40_bad_id_rejected (s : State) (id : Nat) (fin : Bool) (meth cl : Nat) (h0 : id ≠ 0)
+    (hb : id % 2 ≠ 1 ∨ id < s.maxId) :
+    (step s (.syn id fin meth cl)).out = [.goaway s.maxId 1] ∧ (step s (.syn id fin meth cl)).st.opened = s.opened := by
   have hb' : (id % 2 ≠ 1 ∨ id < ({ s with kick := false } : State).maxId) := hb
   simp only [step, h0, if_false, hb', if_true, goAway]
   constructor <;> first | rfl | trivial
+
+/-- **Request headers**: a SYN_STREAM that announces a body (no FIN) with method HEAD, or with a Content-Length
+    that is not a non-negative number, is answered with RST_STREAM(PROTOCOL_ERROR) (no handler is started: `handlers` is left as it was before the reset). -/
+theorem C40_malformed_request_reset (s : State) (id : Nat) (meth cl : Nat) (h0 : id ≠ 0) (hodd : id % 2 = 1)
+    (hgt : s.maxId < id) (hadv : s.cur + 1 ≤ s.adv) (hbad : meth = 2 ∨ cl = 1 ∨ cl = 2) :
+    (step s (.syn id false meth cl)).out.head? = some (.rst id 1) := by
+  have h1 : ¬ (id % 2 ≠ 1 ∨ id < ({ s with kick := false } : State).maxId) := by
+    show ¬ (id % 2 ≠ 1 ∨ id < s.maxId); omega
+  have h2 : ¬ id = ({ s with kick := false } : State).maxId := by show ¬ id = s.maxId; omega
+  have h3 : ¬ (({ s with kick := false } : State).cur + 1 > ({ s with kick := false } : State).adv) := by
+    show ¬ (s.cur + 1 > s.adv); omega
+  have hb : (!false && (meth == 2 || cl == 1 || cl == 2)) = true := by
+    rcases hbad with h | h | h <;> simp [h]
+  simp only [step, h0, if_false, h1, h2, h3, hb, if_true, reset]
+  rfl
+
+/-- **Declared length**: DATA beyond the announced Content-Length, and END_STREAM before it is reached, reset the
+    stream with PROTOCOL_ERROR (the latter after the frame itself was accepted). -/
+theorem C40_content_length (s : State) (id len : Nat) (fin : Bool) (st : St) (hid : id ≠ 0)
+    (hf : find s id = some st) (ho : st.isOpen = true) :
+    (overDecl st len = true → (step s (.data id len fin)).out.head? = some (.rst id 1)) := by
+  intro hov
+  have hf' : find { s with kick := false } id = some st := hf
+  simp [step, hid, hf', ho, hov, reset]
 
 /-- **No panic in `flow.take` from client frames**: processData never calls `take` with more than `available()`. -/
 theorem C40_no_panic (s : State) (e : Ev) : (step s e).status ≠ .panic := by
@@ -58,10 +83,13 @@ theorem C40_in_window (s : State) (id len : Nat) (fin : Bool) (st : St)
     (len : Int) ≤ st.inflow ∧ (len : Int) ≤ s.connIn := by
   have hf' : find { s with kick := false } id = some st := hf
   simp only [step, hid, if_false, hf', ho, Bool.not_true, Bool.false_eq_true, hl, if_true, reset] at hacc
-  by_cases hav : available st.inflow s.connIn < (len : Int)
-  · simp [hav] at hacc
-  · unfold available at hav
-    split at hav <;> omega
+  cases hov : overDecl st len with
+  | true => simp [hov] at hacc
+  | false =>
+    by_cases hav : available st.inflow s.connIn < (len : Int)
+    · simp [hov, hav] at hacc
+    · unfold available at hav
+      split at hav <;> omega
 
 /-- **Frames for closed / never opened streams** are answered with RST_STREAM(INVALID_STREAM), half-closed
     (remote) ones with RST_STREAM(STREAM_ALREADY_CLOSED); no window is debited. -/
